@@ -6,7 +6,7 @@ import json
 import core
 from props import answers, rel
 
-THEOREMS = ["InfOCF.C08_Z_le_W", "InfOCF.C08_W_le_Lex", "InfOCF.C08_P_le_Z", "InfOCF.C08_P_le_C", "InfOCF.C08_chain_partial",
+THEOREMS = ["InfOCF.C08_Z_le_W", "InfOCF.C08_W_le_Lex", "InfOCF.C08_P_le_Z", "InfOCF.C08_P_le_Z_ext", "InfOCF.C08_P_le_C", "InfOCF.C08_c_le_W", "InfOCF.C08_chain", "InfOCF.C08_chain_partial", "InfOCF.kapW_eq_cost",
             "InfOCF.specZ_le_specW", "InfOCF.specW_le_specLex", "InfOCF.p_le_Z", "InfOCF.zrk_lt_wless", "InfOCF.wless_lexLt",
             "InfOCF.kapW_sep", "InfOCF.kapW_accepts"]
 RULE = ("small: random and tie-rich bases (both modes) x 6 queries, all operators and back-ends through InferenceManager; "
@@ -14,7 +14,7 @@ RULE = ("small: random and tie-rich bases (both modes) x 6 queries, all operator
         "every implication of the chain is checked on the implementation's answers; non-trivial = the weaker operator answers True "
         "on a contingent query (so the implication has a premise); distinct by (base, query, pair)")
 ASSUMPTIONS = ["rows flagged timed-out on large bases are skipped (counted)",
-               "c <= W is proved only up to its core lemmas (kapW_sep, kapW_accepts); the link is otherwise covered by this correspondence"]
+               "the inclusions are proved for the operator models (c-inference at the level of its specification specC, tied to the code by C05)"]
 
 PAIRS_STRICT = [("p-entailment/rc2", "system-z/rc2"), ("system-z/rc2", "system-w/rc2"), ("system-z/rc2", "system-w/z3"),
                 ("system-w/rc2", "lex_inf/rc2"), ("system-w/z3", "lex_inf/z3"), ("system-w/rc2", "lex_inf/z3"),
